@@ -1,0 +1,185 @@
+//! Thin public wrappers around the crate-private range sets, for the external verification
+//! harness
+//!
+//! Compiled only with the private `__verif` feature. Calls are forwarded unchanged.
+
+use std::ops::Range;
+
+use super::{ArrayRangeSet, RangeSet};
+
+/// Wrapper around `range_set::RangeSet` (B-tree based)
+pub struct VerifRangeSet(RangeSet);
+
+impl VerifRangeSet {
+    /// `RangeSet::new`
+    #[allow(clippy::new_without_default)]
+    pub fn new() -> Self {
+        Self(RangeSet::new())
+    }
+
+    /// `RangeSet::insert`
+    pub fn insert(&mut self, x: Range<u64>) -> bool {
+        self.0.insert(x)
+    }
+
+    /// `RangeSet::insert_one`
+    pub fn insert_one(&mut self, x: u64) -> bool {
+        self.0.insert_one(x)
+    }
+
+    /// `RangeSet::remove`
+    pub fn remove(&mut self, x: Range<u64>) -> bool {
+        self.0.remove(x)
+    }
+
+    /// `RangeSet::replace`, collecting the returned intersections
+    pub fn replace(&mut self, x: Range<u64>) -> Vec<Range<u64>> {
+        self.0.replace(x).collect()
+    }
+
+    /// `RangeSet::add`
+    pub fn add(&mut self, other: &Self) {
+        self.0.add(&other.0)
+    }
+
+    /// `RangeSet::subtract`
+    pub fn subtract(&mut self, other: &Self) {
+        self.0.subtract(&other.0)
+    }
+
+    /// `RangeSet::pop_min`
+    pub fn pop_min(&mut self) -> Option<Range<u64>> {
+        self.0.pop_min()
+    }
+
+    /// `RangeSet::peek_min`
+    pub fn peek_min(&self) -> Option<Range<u64>> {
+        self.0.peek_min()
+    }
+
+    /// `RangeSet::min`
+    pub fn min(&self) -> Option<u64> {
+        self.0.min()
+    }
+
+    /// `RangeSet::max`
+    pub fn max(&self) -> Option<u64> {
+        self.0.max()
+    }
+
+    /// `RangeSet::len`
+    pub fn len(&self) -> usize {
+        self.0.len()
+    }
+
+    /// `RangeSet::is_empty`
+    pub fn is_empty(&self) -> bool {
+        self.0.is_empty()
+    }
+
+    /// `RangeSet::contains`
+    pub fn contains(&self, x: u64) -> bool {
+        self.0.contains(x)
+    }
+
+    /// `RangeSet::iter`, forwards
+    pub fn ranges(&self) -> Vec<Range<u64>> {
+        self.0.iter().collect()
+    }
+
+    /// `RangeSet::iter`, backwards
+    pub fn ranges_rev(&self) -> Vec<Range<u64>> {
+        self.0.iter().rev().collect()
+    }
+
+    /// `RangeSet::elts`
+    pub fn elts(&self) -> Vec<u64> {
+        self.0.elts().collect()
+    }
+
+    /// Complete state
+    pub fn render(&self) -> String {
+        format!("{:?}", self.0)
+    }
+}
+
+/// Wrapper around `range_set::ArrayRangeSet`
+pub struct VerifArrayRangeSet(ArrayRangeSet);
+
+impl VerifArrayRangeSet {
+    /// `ArrayRangeSet::new`
+    #[allow(clippy::new_without_default)]
+    pub fn new() -> Self {
+        Self(ArrayRangeSet::new())
+    }
+
+    /// `ArrayRangeSet::insert`
+    pub fn insert(&mut self, x: Range<u64>) -> bool {
+        self.0.insert(x)
+    }
+
+    /// `ArrayRangeSet::insert_one`
+    pub fn insert_one(&mut self, x: u64) -> bool {
+        self.0.insert_one(x)
+    }
+
+    /// `ArrayRangeSet::remove`
+    pub fn remove(&mut self, x: Range<u64>) -> bool {
+        self.0.remove(x)
+    }
+
+    /// `ArrayRangeSet::pop_min`
+    pub fn pop_min(&mut self) -> Option<Range<u64>> {
+        self.0.pop_min()
+    }
+
+    /// `ArrayRangeSet::min`
+    pub fn min(&self) -> Option<u64> {
+        self.0.min()
+    }
+
+    /// `ArrayRangeSet::max`
+    pub fn max(&self) -> Option<u64> {
+        self.0.max()
+    }
+
+    /// `ArrayRangeSet::len`
+    pub fn len(&self) -> usize {
+        self.0.len()
+    }
+
+    /// `ArrayRangeSet::is_empty`
+    pub fn is_empty(&self) -> bool {
+        self.0.is_empty()
+    }
+
+    /// `ArrayRangeSet::contains`
+    pub fn contains(&self, x: u64) -> bool {
+        self.0.contains(x)
+    }
+
+    /// `ArrayRangeSet::iter`, forwards
+    pub fn ranges(&self) -> Vec<Range<u64>> {
+        self.0.iter().collect()
+    }
+
+    /// `ArrayRangeSet::iter`, backwards
+    pub fn ranges_rev(&self) -> Vec<Range<u64>> {
+        self.0.iter().rev().collect()
+    }
+
+    /// `ArrayRangeSet::elts`
+    pub fn elts(&self) -> Vec<u64> {
+        self.0.elts().collect()
+    }
+
+    /// `Clone::clone` followed by the forward iteration of the clone
+    pub fn clone_ranges(&self) -> Vec<Range<u64>> {
+        self.0.clone().iter().collect()
+    }
+
+    /// Complete state
+    pub fn render(&self) -> String {
+        format!("{:?}", self.0)
+    }
+}
